@@ -504,3 +504,66 @@ Theorem C05_mapmv_merge_refuted :
     mapmv_vals_ok H K s = false.
 Proof. exact mapmv_merge_refuted. Qed.
 Print Assumptions C05_mapmv_merge_refuted.
+
+(** "... and at every nesting depth": the no-key-remove refinement of Map as a FUNCTOR over the nested value type (proofs/MapNKFunctor.v).
+    [sparse_ref vo] packages a list-level refinement structure of a value type (specification [vspec : list O -> V], apply of a fresh op,
+    merge = specification of the concatenation, reset inert on uncovered dots, ...); Orswot has it ([orswot_sr]); whenever [vo] has it,
+    [map_valops vo] has it ([map_sr]); and for every such [vo] the complete state of every reachable Map<K,V> state is the specification of
+    its knowledge under per-actor delivery, duplicates and merges ([map_sr_refine], for any command interpreter that generates through
+    [mgen] new well-formed ops).  Depths 1, 2 and 3 are three applications ([sr1], [sr2], [sr3] in proofs/MapNKFunctorInst.v). *)
+From Crdt Require Import model.Orswot model.Map spec.System spec.OrswotSpec spec.OrswotSystem spec.MapSpec spec.MapSystem spec.MapOrswotSpec spec.MapMapOrswotSpec spec.MapMapOrswotNKSpec proofs.MapMapOrswotNK proofs.MapNKFunctor proofs.MapNKFunctorInst.
+Theorem C05_map_nk_functor (V O E : Type) (vo : valops V O E) : sparse_ref vo -> sparse_ref (map_valops vo).
+Proof. exact (@map_sr V O E vo). Qed.
+Print Assumptions C05_map_nk_functor.
+
+Theorem C05_map_nk_functor_base : sparse_ref orswot_valops.
+Proof. exact orswot_sr. Qed.
+Print Assumptions C05_map_nk_functor_base.
+
+Theorem C05_map_nk_functor_refine (V O E : Type) (vo : valops V O E) (X : sparse_ref vo)
+    (Cmd : Type) (gen : cmap V -> N -> Cmd -> option (mop O)) (tocmd : Cmd -> MapSystem.mcmd V O) :
+  (forall (s : cmap V) (a : N) (c : Cmd) (o : mop O), gen s a c = Some o -> MapSystem.mgen vo s a (tocmd c) = Some o) ->
+  (forall (U os : list (mop O)) (a : N) (c : Cmd) (o : mop O),
+      muniv X (fun _ : dot => True) U -> MapMapOrswotNK.gside U os ->
+      gen (mspec_nk_of X os) a c = Some o -> exists d : dot, mnewop X (fun _ : dot => True) U d o) ->
+  forall H : list (oprec (mop O)),
+    hist_ok mnew (mapply vo) (mmerge vo) gen adm_per_actor True H ->
+    forall (s : cmap V) (K : gset nat),
+      reach mnew (mapply vo) (mmerge vo) adm_per_actor True H s K -> s = sr_spec X H K.
+Proof. exact (@map_sr_refine V O E vo X Cmd gen tocmd). Qed.
+Print Assumptions C05_map_nk_functor_refine.
+
+(** depth 3, Map<K1,Map<K2,Map<K3,Orswot>>> without key removes: one more application of the functor *)
+Theorem C05_map3_refine_nk (H : list (oprec (mop (mop (mop oop))))) :
+  m3hist_ok_nk H -> forall (s : cmap (cmap (cmap orswot))) (K : gset nat), m3reach_nk H s K -> s = map3_spec_nk H K.
+Proof. exact (map3_refine_nk H). Qed.
+Print Assumptions C05_map3_refine_nk.
+
+Theorem C05_map3_member_sentence (H : list (oprec (mop (mop (mop oop))))) :
+  m3hist_ok_nk H -> forall (s : cmap (cmap (cmap orswot))) (K : gset nat) (k1 k2 k3 m : N), m3reach_nk H s K ->
+  (m ∈ dom (m3_state_entries s k1 k2 k3) <->
+   exists d ms, MUp d k1 (MUp d k2 (MUp d k3 (OAdd d ms))) ∈ known_ops H K /\ m ∈ ms /\
+     ~ exists d' c ms', MUp d' k1 (MUp d' k2 (MUp d' k3 (ORm c ms'))) ∈ known_ops H K /\ m ∈ ms' /\
+                        dcounter d <= vget c (dactor d)).
+Proof. exact (map3_member_iff_nk H). Qed.
+Print Assumptions C05_map3_member_sentence.
+
+Theorem C05_map3_nonvacuous :
+  exists (H : list (oprec (mop (mop (mop oop))))) (sA sB sC : cmap (cmap (cmap orswot))) (KA KB : gset nat),
+    m3hist_ok_nk H /\ length H = 4%nat /\
+    ~ adm_causal H ∅ 1%nat /\
+    m3reach_nk H sA KA /\
+    m3_state_parked sA 7 3 1 = Some {[ ({[1 := 1]} : gmap N N) := ({[10]} : gset N) ]} /\
+    m3reach_nk H sB KB /\
+    m3_state_entries sB 7 3 1 = {[10 := {[1 := 1]}]} /\
+    m3reach_nk H sC (KA ∪ KB) /\
+    mmerge (map_valops (map_valops orswot_valops)) sA sB = sC /\ mmerge (map_valops (map_valops orswot_valops)) sB sA = sC /\
+    mmerge (map_valops (map_valops orswot_valops)) sA sB = map3_spec_nk H (KA ∪ KB) /\
+    map3_nk_ok H (KA ∪ KB) (mmerge (map_valops (map_valops orswot_valops)) sA sB) = true /\
+    map3_nk_ok H KA sA = true /\
+    m3_state_entries sC 7 3 1 = ∅ /\
+    m3_state_parked sC 7 3 1 = Some ∅ /\
+    m3_state_entries sC 7 4 1 = {[21 := {[1 := 2]}]} /\
+    m3_state_entries sC 8 4 2 = {[20 := {[2 := 2]}]}.
+Proof. exact map3_nk_example_closed. Qed.
+Print Assumptions C05_map3_nonvacuous.
